@@ -231,7 +231,7 @@ def run_case(case, ctx):
     ctx.outcome(fmt)
     if place != "low" or total * unit > (1 << 32):
         ctx.nontrivial += 1
-    with ctx.watch(case, 120):
+    with ctx.watch(case, 900):
         results = {}
         for dens in ("sparse", "dense") if density == "dense" else ("sparse",):
             placed, targets, hole = _layout(fmt, total, dens)
